@@ -45,8 +45,11 @@ def gen_cases(rng, tier):
         k = ['select', 'delete', 'rename', 'computed', 'add_field', 'find_replace'][i % 6]
         names, rows, types = gen_table(rng, typed=(k in ('computed',)))
         c = {'kind': k, 'names': names, 'rows': rows_enc(rows), 'types': types, 'two': rng.chance(0.3)}
+        c['_want_both'] = (k == 'computed') and not c['two'] and rng.chance(0.5)
         regex = rng.chance(0.6)
         c['regex'] = regex
+        if k != 'computed':
+            c.pop('_want_both', None)
         if k in ('select', 'delete'):
             if regex:
                 c['fields'] = [rng.pick(PATS) for _ in range(rng.randint(1, 3))]
@@ -86,6 +89,14 @@ def gen_cases(rng, tier):
                     w = ''
                 fs.append({'op': op, 'source': src, 'with': w, 'target': rng.pick(['t1', 't2', 'out', names[0]]) if rng.chance(0.9) else names[-1]})
             c['fields'] = fs
+            # (only columns read by sum/join, which accept an empty list of values: max/min/multiply/avg of nothing is an error)
+            fragile = set(x for f in fs if f['op'] in ('avg', 'min', 'max', 'multiply') for x in f['source'])
+            srcs = [x for f in fs if f['op'] in ('sum', 'join') for x in f['source'] if x in names and x not in fragile]
+            targets = [f['target'] for f in fs]
+            fmt_fields = [p_[1] for f in fs if f['op'] == 'format' for p_ in f['with'] if p_[0] == 'fld']
+            cand = [x for x in srcs if x not in targets and x not in fmt_fields and not any(f['op'] == 'callable' and f['with'] == x for f in fs)]
+            if c.pop('_want_both', False) and cand and len(names) >= 2:
+                c['both'] = cand[0]
         elif k == 'add_field':
             c['name'] = rng.pick(['new', 'x1', names[0]])
             c['type'] = 'any'
@@ -101,6 +112,12 @@ def gen_cases(rng, tier):
                 fs.append({'name': rng.pick(names + (['zz'] if rng.chance(0.05) else [])), 'patterns': pats})
             c['fields'] = fs
         cases.append(c)
+    # systematically: sum and join over two columns, with a second selected resource that lacks one of them
+    for op, w in (('sum', ''), ('join', '-')):
+        for drop in ('c1', 'c2'):
+            rows = [{'c1': 1, 'c2': 10, 'id': 'p'}, {'c1': None, 'c2': 5, 'id': 'q'}, {'c1': 3, 'c2': None, 'id': 'r'}]
+            cases.append({'kind': 'computed', 'names': ['c1', 'c2', 'id'], 'rows': rows_enc(rows), 'types': {'c1': 'integer', 'c2': 'integer', 'id': 'string'},
+                          'two': False, 'regex': False, 'fields': [{'op': op, 'source': ['c1', 'c2'], 'with': w, 'target': 't1'}], 'both': drop})
     return cases
 
 
@@ -140,6 +157,12 @@ def run_impl(case):
     res = [mk_resource('t', case['names'], rows, types=case['types'])]
     if case['two']:
         res.append(mk_resource('other', case['names'], rows, types=case['types']))
+    if case.get('both'):
+        # a second selected resource that lacks the first source column: each resource is computed from its own columns
+        drop = case['both']
+        keep = [n for n in case['names'] if n != drop]
+        res.append(mk_resource('narrow', keep, [dict((k_, v_) for k_, v_ in r.items() if k_ != drop) for r in rows],
+                               types=dict((n, case['types'][n]) for n in keep)))
     out = run_stream(res, [step_of(case)])
     if 'error' in out:
         return {'error': out['error'], 'exc': out['exc']}
